@@ -173,6 +173,8 @@ func (r *run) dispatch(e Ev) {
 		r.drainLag(kernel.NewRng(e.S + 1))
 	case "patch":
 		r.restPatch(e)
+	case "parpatch":
+		r.parPatch(e)
 	case "rogue":
 		r.rogue(e)
 	case "reset":
